@@ -3,7 +3,8 @@
 From Coq Require Import List NArith Bool Permutation.
 Import ListNotations.
 Require Import Celma.Common.Res Celma.ArgH.Key Celma.ArgH.Table Celma.ArgH.TableProofs
-               Celma.ArgH.TableOps Celma.ArgH.TableOpsProofs.
+               Celma.ArgH.TableOps Celma.ArgH.TableOpsProofs
+               Celma.ArgH.Lex Celma.ArgH.Handler Celma.ArgH.SubGroup Celma.ArgH.SubGroupProofs.
 
 (** What the definition-time test ([==] or [mismatch] of ArgumentKey) means:
     the short key or the long key is already taken - which includes a
@@ -118,6 +119,21 @@ Example C05_staged_nonvacuous :
                    TDef (lk [105; 110; 112]%N) 2 false; TProbe (lk [105; 110; 112]%N)]
   = Some ([Ok (Some 1); Ok (Some 2)], [(lk s_input, 1); (lk [105; 110; 112]%N, 2)]).
 Proof. vm_compute. reflexivity. Qed.
+
+(** Sub-group arguments are kept in a container of their own.  With the
+    definitions accepted (each addArgument path refuses a key that is taken in
+    either container - [sg_keys_ok]; found missing in the pinned tree and
+    repaired: "fix: the key of a sub-group argument and the key of a plain
+    argument of the same handler must differ") no word is the exact key of a
+    plain argument and of a sub-group argument at the same time. *)
+Theorem C05_subgroup_key_one_argument :
+  forall c d ks cs k,
+    sg_keys_ok c = true ->
+    In d (args (sg_main c)) -> In (ks, cs) (sg_subs c) ->
+    typed_key k ->
+    key_eq (a_key d) k = true -> key_eq ks k = true -> False.
+Proof. exact sg_exact_key_one_argument. Qed.
+Print Assumptions C05_subgroup_key_one_argument.
 
 (** Non-vacuity: a table built from three definitions, a permutation of it, an
     exact key that is a prefix of two other long keys. *)
